@@ -68,12 +68,42 @@ def run(ctx):
             continue
         r1(ctx, ty, m['new'])
         disc = r2(ctx, ty, m)
+        seed_order(ctx, ty, m['new'], disc)
+        helpers.check_traversal_new(ctx, 'C13.R5', ty, site='%s::new#bounds' % ty)
         r4(ctx, ty, m, disc)
         r5_skip(ctx, ty, m)
     r5_wrappers(ctx)
     r6(ctx)
     r7(ctx)
     r9(ctx)
+
+
+def seed_order(ctx, ty, b, disc):
+    """A traversal whose start frontier holds the children of the start node (the edge traversal) must enqueue them in the same orientation
+    as next() enqueues the children of a popped node: reversed for a LIFO frontier, forward for a FIFO one -- otherwise the first level is
+    visited by descending label."""
+    if disc is None:
+        return
+    R = Resolver(b)
+    site = '%s::new#order' % ty
+    found = False
+    for bb, t in b.calls():
+        c = Callee(t['func'])
+        if c.name not in ('push', 'push_back', 'push_front', 'extend'):
+            continue
+        v = R.call_args(bb)[1]
+        kids = [x for x in walk(v) if is_call(x, 'Tree::children', 'TreeNode::children_iter') or (isinstance(x, tuple) and x[:1] == ('field',) and x[2] == 'children')]
+        if not kids:
+            continue
+        found = True
+        reversed_ = has_call(v, 'Iterator::rev')
+        front = c.name == 'push_front'
+        if ((disc == 'lifo') == reversed_) != front:
+            ctx.ok('C13.R2', site, 'start frontier: children of the start node enqueued in %s label order for a %s frontier' % ('reverse' if reversed_ else 'forward', disc.upper()), b.where(bb))
+        else:
+            ctx.bad('C13.R2', site, 'start frontier: children of the start node enqueued in %s label order for a %s frontier: the first level would be visited by descending label' %
+                    ('reverse' if reversed_ else 'forward', disc.upper()), b.where(bb))
+    return found
 
 
 def _after_bb(cfg, a, b_):
